@@ -152,15 +152,61 @@ def base_regime(S, finiteN, nlo=1):
     return n, u, t, Nv, Nspec
 
 
-def run_guard(S, I, fn, args, kwargs=None, allowed=()):
-    """run the real body; an exception outside `allowed` is a failed 'no-exception' obligation"""
+def run_guard(S, I, fn, args, kwargs=None, allowed=(), native=None):
+    """run the real body (AST, symbolic); in replay mode return the result of the native CPython run instead.
+    An exception outside `allowed` is a failed 'no-exception' obligation."""
+    S.native_desc = native
+    if S.mode == "replay":
+        out = S.native_out
+        if not out.get("ok"):
+            e = PyRaise(out.get("exception", "Exception"), out.get("message", ""))
+            if e.exc_type in allowed:
+                return None, e
+            S.holds("no-exception:" + e.exc_type, False)
+            return None, e
+        return from_native(out["value"]), None
     try:
         return I.run(fn, args, kwargs or {}), None
     except PyRaise as e:
         if e.exc_type in allowed:
             return None, e
-        S.holds("no-exception:" + e.exc_type + ":" + e.msg[:40], False)
+        S.holds("no-exception:" + e.exc_type, False)
         return None, e
+
+
+def from_native(v):
+    from pyvc.script import pin_to_num
+    if isinstance(v, list):
+        if all(not isinstance(x, (list, dict)) for x in v) and not any(isinstance(x, bool) for x in v) and \
+                all(isinstance(x, (int, float, str)) for x in v) and not all(isinstance(x, int) for x in v):
+            return SymArr(0, kind="xr", items=[XR.const(pin_to_num(x), npk=True) for x in v])
+        if v and all(isinstance(x, int) and not isinstance(x, bool) for x in v):
+            return SymArr(0, kind="int", items=list(v))
+        return tuple(from_native(x) for x in v)
+    if isinstance(v, bool) or v is None:
+        return v
+    if isinstance(v, int):
+        return v
+    if isinstance(v, (float, str)):
+        try:
+            return XR.const(pin_to_num(v), npk=True)
+        except Exception:
+            return v
+    if isinstance(v, dict):
+        return {k: from_native(x) for k, x in v.items()}
+    return v
+
+
+def nn_native(method, finiteN, attrs=(), abstract=None, named=None, args=("x",)):
+    a = {"u": "u", "t": "t", "N": "N" if finiteN else "inf"}
+    for k in attrs:
+        a[k] = k
+    d = {"kind": "nonneg_method", "method": method, "attrs": a, "args": list(args)}
+    if abstract:
+        d["abstract"] = abstract
+    if named:
+        d["named"] = named
+    return d
 
 
 # ------------------------------------------------------------------ sjm
@@ -171,7 +217,9 @@ def sjm_post(S, I, variant):
     n, u, t, Nv, Nspec = base_regime(S, finiteN)
     x = S.array("x", n, 0, u)
     fn = I.get(MOD, "NonnegMean.sjm")
-    r, exc = run_guard(S, I, fn, [mk_self(I, {}), Nv, t, x])
+    r, exc = run_guard(S, I, fn, [mk_self(I, {}), Nv, t, x],
+                       native={"kind": "nonneg_method", "method": "sjm", "attrs": {},
+                               "args": ["N" if finiteN else "inf", "t", "x"]})
     if exc:
         return
     Sa, Stot, j, m = r
@@ -207,6 +255,7 @@ def mart_setup(S, I, which, finiteN, eta_lo=None, eta_hi=None, nlo=1):
     attrs = {"u": u, "N": Nv, "t": t}
     attrs["estim" if which == "alpha" else "bet"] = abstract_vec(par)
     self = mk_self(I, attrs)
+    S.base_facts = list(ctx().facts)       # parameter constraints (u > t > 0, N >= n >= 1, ...)
     return n, u, t, Nv, Nspec, x, par, self
 
 
@@ -238,25 +287,456 @@ def betting_product(S, I, variant):
     mart_product(S, I, "betting", variant[0] == "finiteN")
 
 
+def mart_native(which, finiteN):
+    return nn_native("alpha_mart" if which == "alpha" else "betting_mart", finiteN,
+                     abstract={"estim": "eta"} if which == "alpha" else {"bet": "lam"})
+
+
 def mart_product(S, I, which, finiteN):
     install_contracts(I)
     n, u, t, Nv, Nspec, x, par, self = mart_setup(S, I, which, finiteN)
     fn = I.get(MOD, "NonnegMean.alpha_mart" if which == "alpha" else "NonnegMean.betting_mart")
     I.trace.clear()
-    r, exc = run_guard(S, I, fn, [self, x])
+    r, exc = run_guard(S, I, fn, [self, x], native=mart_native(which, finiteN))
+    if exc:
+        return
+    p, hist = r
+    PS, mu, fs = mart_spec_arrays(which, n, u, t, Nspec, x, par)
+    S.holds("len(hist)=n", icmp("==", hist.length, n))
+    if isinstance(n, int):
+        inst = lambda i: True
+    else:
+        cps = I.trace.get("cum*", [])
+        if len(cps) != 1:
+            S.holds("exactly-one-running-product", False)
+            return
+        inst = fold_congruence(S, cps[0], fs, n)
+    T = fs.fold("*")
+    Stot = PS.at(n)
+    c = ctx()
+    for j in indices(S, n, "j"):
+        if isinstance(n, int):
+            S.eq("hist[j]=min(1,1/T_j)+conventions", hist.at(j), mart_hist_spec(T.at(j + 1), mu(j), j, n, u, Nspec, t, Stot))
+            continue
+        if not inst(iadd(j, 1)):
+            S.holds("prerequisite: running products agree", False)
+            continue
+        Fc = cps[0].fold("*")
+        Tc, Ts, muj = Fc.at(iadd(j, 1)), T.at(iadd(j, 1)), mu(j)
+        goal = xsame(hist.at(j), mart_hist_spec(Ts, muj, j, n, u, Nspec, t, Stot))
+        hyps = list(c.pc) + S.base_facts + [xsame(Tc, Ts), z3.And(j >= 0, j < zi(n)), xr(Tc).wf(), xr(Ts).wf(),
+                                            xr(muj).wf()]
+        mulast = mu(isub(n, 1))     # the code re-reads the last entry; congruence (a tautology) links it to mu_j
+        hyps.append(bimp(icmp("==", j, isub(n, 1)), xsame(muj, mulast)))
+        hyps.append(xr(mulast).wf())
+        S.prove_using("hist[j]=min(1,1/T_j)+conventions", goal, hyps, opaque=[muj, mulast])
+        S.holds("wf(products, mu_j)", band(xr(Tc).wf(), xr(Ts).wf(), xr(muj).wf()))
+    S.check_vacuity("alpha_product")
+
+
+# ------------------------------------------------------------------ alpha_mart / betting_mart: well-formed p-values (C11)
+
+def inside(mu, u):
+    return band(mu.fin(), xcmp(">", mu, XR.const(0)), xcmp("<", mu, u))
+
+
+@script(["C11", "C01"], "NonnegMean.alpha_mart/well-formed", variants=(("finiteN",), ("infN",)))
+def alpha_wf(S, I, variant):
+    mart_wf(S, I, "alpha", variant[0] == "finiteN")
+
+
+@script(["C11", "C01"], "NonnegMean.betting_mart/well-formed", variants=(("finiteN",), ("infN",)))
+def betting_wf(S, I, variant):
+    mart_wf(S, I, "betting", variant[0] == "finiteN")
+
+
+def param_interface(S, which, n, u, t, Nspec, x, par):
+    """interface contract of the field-held estimator / bet (what C13 proves of each shipped one):
+    eta_k in [0,u];  lam_k >= 0 and lam_k * mu_k <= 1 wherever 0 < mu_k <= u.  Added as facts on access."""
+    if which == "alpha":
+        return
+    PS = x.fold("+")
+    old = par._elem if par.items is None else None
+    c = ctx()
+    if par.items is not None:
+        for k, lam in enumerate(par.items):
+            mu = mu_spec(Nspec, t, PS, k)
+            ok = band(xcmp(">", mu, XR.const(0)), xcmp("<=", mu, u))
+            c.assume(bimp(ok, band(xcmp(">=", lam, XR.const(0)), xcmp("<=", xmul(lam, mu), XR.const(1)))))
+        return
+    seen = set()
+
+    def elem(i):
+        lam = old(i)
+        h = tid(zi(i))
+        if h not in seen:
+            seen.add(h)
+            mu = mu_spec(Nspec, t, PS, i)
+            ok = band(xcmp(">", mu, XR.const(0)), xcmp("<=", mu, u))
+            ctx().assume(bimp(ok, band(xcmp(">=", lam, XR.const(0)), xcmp("<=", xmul(lam, mu), XR.const(1)))))
+        return lam
+
+    par._elem = elem
+
+
+def mart_wf(S, I, which, finiteN):
+    install_contracts(I)
+    if which == "alpha":
+        n, u, t, Nv, Nspec, x, par, self = mart_setup(S, I, which, finiteN, eta_lo=0, eta_hi=None)
+        # eta in [0,u]
+        c = ctx()
+        if par.items is not None:
+            for e in par.items:
+                c.assume(xcmp("<=", e, u))
+        else:
+            old = par._elem
+            par._elem = lambda i: (lambda e: (ctx().assume(xcmp("<=", e, u)), e)[1])(old(i))
+    else:
+        n, u, t, Nv, Nspec, x, par, self = mart_setup(S, I, which, finiteN)
+        param_interface(S, which, n, u, t, Nspec, x, par)
+    fn = I.get(MOD, "NonnegMean.alpha_mart" if which == "alpha" else "NonnegMean.betting_mart")
+    I.trace.clear()
+    c = ctx()
+    c.trace.clear()
+    r, exc = run_guard(S, I, fn, [self, x], native=mart_native(which, finiteN))
     if exc:
         return
     p, hist = r
     PS, mu, fs = mart_spec_arrays(which, n, u, t, Nspec, x, par)
     S.holds("len(hist)=n", icmp("==", hist.length, n))
     cps = I.trace.get("cum*", [])
-    if len(cps) != 1:
-        S.holds("exactly-one-running-product", False)
+    ext = [e for e in c.trace if e[0] == "extreme"]
+    one, zero = XR.const(1), XR.const(0)
+
+    def hist_ok_v(h):
+        h = xr(h)
+        return band(bnot(h.nan), xcmp(">=", h, zero), xcmp("<=", h, one))
+
+    if isinstance(n, int):
+        # concrete-length mode: everything is unfolded, state the property directly
+        for j in range(n):
+            S.holds("hist[j] in [0,1], not NaN", hist_ok_v(hist.at(j)))
+            S.holds("p <= hist[j]", xcmp("<=", p, hist.at(j)))
+        S.holds("p in [0,1], not NaN", hist_ok_v(p))
+        S.holds("p = hist[w] for some w", bor(*[xsame(p, hist.at(j)) for j in range(n)]))
         return
-    inst = fold_congruence(S, cps[0], fs, n)
-    T = fs.fold("*")
-    Stot = PS.at(n)
-    for j in indices(S, n, "j"):
-        inst(iadd(j, 1))
-        S.eq("hist[j]=min(1,1/T_j)+conventions", hist.at(j), mart_hist_spec(T.at(iadd(j, 1)), mu(j), j, n, u, Nspec, t, Stot))
-    S.check_vacuity("alpha_product")
+    if len(cps) != 1 or len(ext) != 1 or ext[0][1] != "max":
+        S.holds("one running product and one maximum over the history", False)
+        return
+    fc = cps[0]
+    Fc = fc.fold("*")
+    _, _, M, w, wn, terms = ext[0]
+    # lemma M: the null mean cannot re-enter (0,u):  inside(mu_k) and k >= 1  =>  inside(mu_{k-1})
+    if finiteN:
+        mono = S.forall_lemma("null-mean-monotone", n, lambda k: bimp(band(icmp(">=", k, 1), inside(mu(k), u)),
+                                                                 inside(mu(isub(k, 1)), u)))
+    else:
+        mono = lambda i: True
+
+    # lemma Q (induction): inside(mu_{k-1})  =>  running product over the first k factors is finite and >= 0
+    def Q(k):
+        Fk = Fc.at(k)
+        return bimp(band(icmp(">=", k, 1), inside(mu(isub(k, 1)), u)), band(Fk.fin(), rcmp(">=", Fk.v, 0)))
+
+    instQ = induction_with(S, "product-finite-nonneg", Q, n, pre=lambda k: mono(k))
+
+    # lemma T: every entry handed to the final  min(1, 1/.)  is a non-NaN value in [0, +inf]
+    def T_ok_v(T):
+        T = xr(T)
+        return band(bnot(T.nan), bnot(T.ninf), bimp(T.fin(), rcmp(">=", T.v, 0)))
+
+    instT = S.forall_lemma("terms[i] in [0,+inf], not NaN", n, lambda i: (instQ(iadd(i, 1)), T_ok_v(terms.at(i)))[1])
+
+    # structural links between the returned values and the masked running product `terms`
+    j = indices(S, n, "j")[0]
+    Tj, Tw, Twn = terms.at(j), terms.at(w), terms.at(wn)
+    e_hist = lambda T: xminimum(one, xdiv_np(XR.const(1, npk=True), T))
+    e_p = xmin_py(one, xdiv_np(XR.const(1, npk=True), M))
+    l_hj = S.holds("hist[j] = minimum(1, 1/terms[j])", xsame(hist.at(j), e_hist(Tj)))
+    l_hw = S.holds("hist[w] = minimum(1, 1/terms[w])", xsame(hist.at(w), e_hist(Tw)))
+    l_p = S.holds("p = min(1, 1/max(terms))", xsame(p, e_p))
+    if not (instT(j) and instT(w) and instT(wn)) or any(r.status != "proved" for r in (l_hj, l_hw, l_p)):
+        S.holds("prerequisite lemmas of the p-value clauses", False)
+        return
+    # contract of np.max (assumed, numpy model): NaN iff some entry NaN; else the maximum, attained at w
+    inr = lambda i: band(icmp(">=", i, 0), icmp("<", i, n))
+    maxfacts = [inr(w), inr(wn), inr(j), bimp(M.nan, xr(Twn).nan), bimp(bnot(M.nan), xsame(M, Tw)),
+                bimp(xr(Tj).nan, M.nan), bimp(bnot(M.nan), xcmp(">=", M, Tj)), M.wf()]
+    hyps = maxfacts + [T_ok_v(Tj), T_ok_v(Tw), T_ok_v(Twn), xr(Tj).wf(), xr(Tw).wf(), xr(Twn).wf(),
+                       xsame(hist.at(j), e_hist(Tj)), xsame(hist.at(w), e_hist(Tw)), xsame(p, e_p)]
+    opq = [Tj, Tw, Twn]
+    S.prove_using("hist[j] in [0,1], not NaN", hist_ok_v(hist.at(j)), hyps, opq)
+    S.prove_using("p in [0,1], not NaN", hist_ok_v(p), hyps, opq)
+    S.prove_using("p <= hist[j]", xcmp("<=", p, hist.at(j)), hyps, opq)
+    S.prove_using("p = hist[w] (minimum attained)", xsame(p, hist.at(w)), hyps, opq)
+    S.holds("wf(terms)", band(xr(Tj).wf(), xr(Tw).wf(), xr(Twn).wf()))
+    S.check_vacuity("mart_wf")
+
+
+def induction_with(S, name, P, n, pre=None):
+    """induction on k in [0, n] where `pre(k)` may add lemma instances for the induction variable"""
+    c = ctx()
+    base = P(z3.IntVal(0))
+    rb = S.prove(name + ".base", base)
+    k = z3.Int(c.fresh("ind_k"))
+    if pre:
+        pre(k)
+        pre(k + 1)
+    pk = P(k)
+    pk1 = P(k + 1)
+    rs = S.prove(name + ".step", pk1, extra=[k >= 0, k + 1 <= zi(n), zb(pk)])
+    ok = rb.status == "proved" and rs.status == "proved"
+
+    def inst(i):
+        if ok:
+            c.assume(bimp(band(icmp(">=", i, 0), icmp("<=", i, n)), P(zi(i))))
+        return ok
+
+    return inst
+
+
+# ------------------------------------------------------------------ welford_mean_var (contract + loop invariant)
+
+def welford_spec(x):
+    """(mean, var): mean[k] = PS(k+1)/(k+1);  var[k] = M2(k)/(k+1) with M2 the running sum of
+    inc(0) = 0, inc(k) = (x_k - mean[k-1]) (x_k - mean[k])   (Welford's recurrence, stated over the input only)"""
+    if "welford" in x.ghost:
+        return x.ghost["welford"]
+    n = x.length
+    PS = x.fold("+")
+    mean = lambda k: xdiv_np(npx(PS.at(iadd(k, 1))), npx(XR.const(iadd(k, 1))))
+
+    def inc(k):
+        if isinstance(k, int) and k == 0:
+            return XR.const(0, npk=True)
+        xk = npx(x.at(k))
+        v = xmul(xsub(xk, mean(isub(k, 1))), xsub(xk, mean(k)))
+        return xite(icmp("==", k, 0), XR.const(0, npk=True), v) if not isinstance(k, int) else v
+
+    incarr = mk_arr(n, inc)
+    M2 = incarr.fold("+")
+    var = lambda k: xdiv_np(npx(M2.at(iadd(k, 1))), npx(XR.const(iadd(k, 1))))
+    x.ghost["welford"] = (mean, var, M2, incarr)
+    return mean, var, M2, incarr
+
+
+def contract_welford(I, fn, args, kwargs):
+    """welford_mean_var(x): requires len(x) >= 1; ensures (mean, var) = welford_spec(x), both of length n"""
+    from pyvc.npmodel import to_arr
+    x = to_arr(I, args[0] if args else kwargs["x"])
+    n = x.length
+    c = ctx()
+    if isinstance(n, int):
+        if n == 0:
+            raise PyRaise("IndexError", "index 0 is out of bounds for axis 0 with size 0")
+    elif c.decide(icmp("<=", n, 0)):
+        raise PyRaise("IndexError", "index 0 is out of bounds for axis 0 with size 0")
+    mean, var, M2, incarr = welford_spec(x)
+    return (mk_arr(n, mean), mk_arr(n, var))
+
+
+class WelfordInvariant:
+    """loop 0 of welford_mean_var:  for i, xi in enumerate(x[1:]).
+    Invariant at the head of iteration i (0 <= i <= n-1): m, v are lists of length i+1 with
+    m[k] = mean_spec(k), v[k] = M2_spec(k) for k <= i."""
+
+    def __init__(self, S, x):
+        self.S = S
+        self.x = x
+
+    def run_for(self, I, st, env, in_class):
+        from pyvc.interp import CutPath
+        S, x = self.S, self.x
+        c = ctx()
+        n = x.length
+        mean, var, M2, incarr = welford_spec(x)
+        m, v = env.vars["m"], env.vars["v"]
+        # (1) invariant holds on entry (i = 0): m = [x0], v = [0]
+        S.holds("welford.inv.entry", band(len(m) == 1, len(v) == 1, xsame(xr(m[0]), mean(0)),
+                                         xsame(xr(I.norm_scalar(v[0])), M2.at(1))))
+        # (2) preservation at a symbolic iteration i
+        mode = c.decide(z3.Bool(c.fresh("welford_branch_preserve")))
+        if mode:
+            i = z3.Int(c.fresh("wi"))
+            c.assume(z3.And(i >= 0, i < zi(n) - 1))
+            ml = SymArr(mkint(i + 1), lambda k: mean(k), "xr")
+            vl = SymArr(mkint(i + 1), lambda k: npx(M2.at(iadd(k, 1))), "xr")
+            ml.is_list = vl.is_list = True
+            env.vars["m"], env.vars["v"] = ml, vl
+            env.vars["i"] = SInt(i)
+            env.vars["xi"] = x.at(i + 1)
+            I.exec_block(st.body, env, in_class)
+            m2, v2 = env.vars["m"], env.vars["v"]
+            S.holds("welford.inv.preserved.len", band(icmp("==", m2.length, i + 2), icmp("==", v2.length, i + 2)))
+            S.eq("welford.inv.preserved.m", m2.at(i + 1), mean(i + 1))
+            S.eq("welford.inv.preserved.v", v2.at(i + 1), M2.at(i + 2))
+            kk = z3.Int(c.fresh("wk"))
+            S.holds("welford.inv.frame", band(xsame(m2.at(kk), mean(kk)), xsame(v2.at(kk), M2.at(kk + 1))),
+                    extra=[kk >= 0, kk <= i])
+            raise CutPath()
+        # (3) after the loop: invariant at i = n-1
+        ml = SymArr(n, lambda k: mean(k), "xr")
+        vl = SymArr(n, lambda k: npx(M2.at(iadd(k, 1))), "xr")
+        ml.is_list = vl.is_list = True
+        env.vars["m"], env.vars["v"] = ml, vl
+
+
+@script(["C13", "C05", "C11"], "welford_mean_var/post")
+def welford_post(S, I, variant):
+    n = S.length("n", lo=1)
+    u = S.real("u", lo_strict=0)
+    x = S.array("x", n, 0, u)
+    fn = I.get(MOD, "welford_mean_var")
+    if not isinstance(n, int):
+        I.invariants[("welford_mean_var", 0)] = WelfordInvariant(S, x)
+    from pyvc.interp import CutPath
+    try:
+        r, exc = run_guard(S, I, fn, [x], native={"kind": "module_function", "module": MOD,
+                                                    "qual": "welford_mean_var", "args": ["x"]})
+    except CutPath:
+        return
+    if exc:
+        return
+    mj, v = r
+    mean, var, M2, incarr = welford_spec(x)
+    S.holds("len", band(icmp("==", mj.length, n), icmp("==", v.length, n)))
+    for k in indices(S, n, "k"):
+        S.eq("mean[k]=PS(k+1)/(k+1)", mj.at(k), mean(k))
+        S.eq("var[k]=M2(k)/(k+1)", v.at(k), var(k))
+
+
+@script(["C13", "C11"], "welford_mean_var/variance-nonneg")
+def welford_var_nonneg(S, I, variant):
+    """lemma over the contract: every increment of M2 is >= 0 (so var >= 0 and sqrt is never NaN)"""
+    n = S.length("n", lo=1)
+    u = S.real("u", lo_strict=0)
+    x = S.array("x", n, 0, u)
+    mean, var, M2, incarr = welford_spec(x)
+    if isinstance(n, int):
+        for k in range(n):
+            S.holds("var[k] >= 0", band(var(k).fin(), rcmp(">=", var(k).v, 0)))
+        return
+    inc_ok = S.forall_lemma("increment >= 0", n, lambda k: band(incarr.at(k).fin(), rcmp(">=", incarr.at(k).v, 0)))
+    c = ctx()
+    inst = induction_with(S, "M2 >= 0", lambda k: band(M2.at(k).fin(), rcmp(">=", M2.at(k).v, 0)), n,
+                          pre=lambda k: inc_ok(k))
+    for k in indices(S, n, "k"):
+        inst(iadd(k, 1))
+        S.holds("var[k] >= 0", band(var(k).fin(), rcmp(">=", var(k).v, 0)))
+
+
+# ------------------------------------------------------------------ estimators
+
+def est_self(S, I, n, u, t, Nv, extra):
+    attrs = {"u": u, "N": Nv, "t": t}
+    attrs.update(extra)
+    return mk_self(I, attrs)
+
+
+@script(["C12", "C05", "C01"], "NonnegMean.fixed_alternative_mean/post", variants=(("finiteN",), ("infN",)))
+def fixed_alt_post(S, I, variant):
+    finiteN = variant[0] == "finiteN"
+    install_contracts(I)
+    n, u, t, Nv, Nspec = base_regime(S, finiteN)
+    eta = S.real("eta", lo_strict=t, hi_strict=u)
+    x = S.array("x", n, 0, u)
+    self = est_self(S, I, n, u, t, Nv, {"eta": eta})
+    fn = I.get(MOD, "NonnegMean.fixed_alternative_mean")
+    r, exc = run_guard(S, I, fn, [self, x], native=nn_native("fixed_alternative_mean", finiteN, attrs=("eta",)))
+    if exc:
+        return
+    PS = x.fold("+")
+    if not finiteN:
+        S.eq("eta_j = eta (IID)", r, eta)
+        S.holds("eta in [0,u]", band(xcmp(">=", r, XR.const(0)), xcmp("<=", r, u)))
+        return
+    S.holds("len", icmp("==", r.length, n))
+    for k in indices(S, n, "k"):
+        ek = r.at(k)
+        S.eq("eta_k=(N eta-PS(k))/(N-k)", ek, mu_spec(Nspec, eta, PS, k))
+        S.holds("eta_k > mu_k", xcmp(">", ek, mu_spec(Nspec, t, PS, k)))
+        S.holds("eta_k finite", xr(ek).fin())
+
+
+@script(["C13", "C01", "C11"], "NonnegMean.fixed_alternative_mean/range", variants=(("finiteN",),))
+def fixed_alt_range(S, I, variant):
+    install_contracts(I)
+    n, u, t, Nv, Nspec = base_regime(S, True)
+    eta = S.real("eta", lo_strict=t, hi_strict=u)
+    x = S.array("x", n, 0, u)
+    self = est_self(S, I, n, u, t, Nv, {"eta": eta})
+    fn = I.get(MOD, "NonnegMean.fixed_alternative_mean")
+    r, exc = run_guard(S, I, fn, [self, x], native=nn_native("fixed_alternative_mean", True, attrs=("eta",)))
+    if exc:
+        return
+    PS = x.fold("+")
+    for k in indices(S, n, "k"):
+        ek = r.at(k)
+        # K1 (known finding): eta_k leaves [0,u] once the sample contradicts the alternative
+        S.known("K1", "eta_k in [0,u]", band(xcmp(">=", ek, XR.const(0)), xcmp("<=", ek, u)),
+                carve=bnot(band(xcmp(">=", mu_spec(Nspec, eta, PS, k), XR.const(0)),
+                                xcmp("<=", mu_spec(Nspec, eta, PS, k), u))))
+
+
+@script(["C13", "C01"], "NonnegMean.optimal_comparison/post")
+def optimal_comparison_post(S, I, variant):
+    u = S.real("u", lo_strict=1)
+    p2 = S.real("rate_error_2", lo=0, hi=1)
+    n = S.length("n", lo=1)
+    x = S.array("x", n, 0, u)
+    self = mk_self(I, {"u": u, "rate_error_2": p2})
+    fn = I.get(MOD, "NonnegMean.optimal_comparison")
+    r, exc = run_guard(S, I, fn, [self, x], native={"kind": "nonneg_method", "method": "optimal_comparison",
+                                                   "attrs": {"u": "u", "rate_error_2": "rate_error_2"}, "args": ["x"]})
+    if exc:
+        return
+    one = XR.const(1)
+    closed = xsub(u, xdiv_np(xmul(xmul(u, p2), xsub(xmul(XR.const(2), u), one)), xmul(XR.const(2), xsub(u, one))))
+    S.eq("eta = u - u p2 (2u-1)/(2(u-1))", r, closed)
+    S.holds("eta <= u", xcmp("<=", r, u))
+    # K2 (known finding): eta < 0 when the margin is small against the assumed error rate
+    thresh = xdiv_np(xmul(XR.const(2), xsub(u, one)), xsub(xmul(XR.const(2), u), one))
+    S.known("K2", "eta >= 0", xcmp(">=", r, XR.const(0)), carve=xcmp(">", p2, thresh))
+
+
+@script(["C13", "C01"], "NonnegMean.optimal_comparison/u=1")
+def optimal_comparison_u1(S, I, variant):
+    """K2b: at u = 1 (zero margin) the closed form divides by zero"""
+    p2 = S.real("rate_error_2", lo=0, hi=1)
+    n = S.length("n", lo=1)
+    x = S.array("x", n, 0, XR.const(1))
+    self = mk_self(I, {"u": XR.const(1), "rate_error_2": p2})
+    fn = I.get(MOD, "NonnegMean.optimal_comparison")
+    S.native_desc = {"kind": "nonneg_method", "method": "optimal_comparison",
+                     "attrs": {"u": {"const": 1.0}, "rate_error_2": "rate_error_2"}, "args": ["x"]}
+    if S.mode == "replay":
+        S.known("K2", "no exception at u=1", bool(S.native_out.get("ok")), carve=True)
+        return
+    try:
+        I.run(fn, [self, x])
+        S.known("K2", "no exception at u=1", True, carve=True)
+    except PyRaise as e:
+        S.known("K2", "no exception at u=1", False, carve=True)
+
+
+@script(["C13", "C01"], "NonnegMean.fixed_bet/post", variants=(("finiteN",), ("infN",)))
+def fixed_bet_post(S, I, variant):
+    finiteN = variant[0] == "finiteN"
+    n, u, t, Nv, Nspec = base_regime(S, finiteN)
+    lam = S.real("lam", lo=0)
+    ctx().assume(xcmp("<=", xmul(lam, u), XR.const(1)))      # documented range: 0 <= lam <= 1/u
+    x = S.array("x", n, 0, u)
+    self = est_self(S, I, n, u, t, Nv, {"lam": lam})
+    fn = I.get(MOD, "NonnegMean.fixed_bet")
+    r, exc = run_guard(S, I, fn, [self, x], native=nn_native("fixed_bet", finiteN, attrs=("lam",)))
+    if exc:
+        return
+    PS = x.fold("+")
+    S.holds("len", icmp("==", r.length, n))
+    for k in indices(S, n, "k"):
+        lk = r.at(k)
+        mu = mu_spec(Nspec, t, PS, k)
+        S.eq("lam_k = lam", lk, lam)
+        S.holds("0 <= lam_k and lam_k*mu_k <= 1 where 0 < mu_k <= u",
+                bimp(band(xcmp(">", mu, XR.const(0)), xcmp("<=", mu, u)),
+                     band(xcmp(">=", lk, XR.const(0)), xcmp("<=", xmul(lk, mu), XR.const(1)))))
